@@ -21,7 +21,7 @@ from .report import VIOLATED, UNDECIDED
 @dataclass
 class Variant:
     name: str
-    kind: str                 # "FIRE" | "SILENT"
+    kind: str                 # "FIRE" | "SILENT" | "INFO" | "REPAIRED" (a scratch copy with a known finding repaired: the finding goes, nothing new comes)
     module: str               # file under pyrefact/ (without .py)
     old: str                  # text to replace (must occur exactly once)
     new: str
@@ -161,6 +161,16 @@ def run(prop: str, seed: int = 0, only: Optional[str] = None, verbose: bool = Fa
         elif v.kind == "INFO":
             summary["silent"] += 1
             verdict = ("reported: " + new[0]) if new else "not reported (expected: value-level)"
+        elif v.kind == "REPAIRED":
+            # a repaired scratch copy: the known finding of this rule is no longer reported, and nothing new is
+            fixed = [k for k in gone if v.expect_rule is None or k.startswith(v.expect_rule + "|")]
+            if fixed and not new and not (info and not base_errors):
+                summary["silent"] += 1
+                verdict = f"silent on the repaired copy (no longer reported: {fixed[0]})"
+            else:
+                failures.append(f"REPAIRED variant {name}: finding still reported or new alarm (gone: {gone[:2]}, new: {new[:2]}, errors: {info})")
+                summary["failed"] += 1
+                verdict = f"FAILED: gone {gone[:2]} new {new[:2]} {info}"
         elif v.kind == "FIRE":
             hit = [k for k in new if (v.expect_rule is None or k.startswith(v.expect_rule + "|"))
                    and (v.expect_in is None or v.expect_in in k)]
